@@ -494,6 +494,9 @@ structure St where
   recov : Option Recov := none
   /-- the open transaction: its entries so far, as the group they will be committed as -/
   tr : Option Grp := none
+  /-- `session.manifestFailed`: an append to the manifest failed (its journal writer keeps the error, the record
+      may be in the file): the next commit writes a fresh manifest (the repair of D8) -/
+  manifestFailed : Bool := false
   -- ghost
   issued : List Issue := []
   /-- first sequence number no group has been given -/
@@ -607,7 +610,8 @@ def Job.afterTables (j : Job) : JPc :=
 /-- a failure inside `Open` (recovery) makes `Open` return the error: the process is gone, the storage
     stays as it is -/
 def giveUp (s : St) : St :=
-  { s with phase := .crashed, w := .idle, job := none, recov := none, mem := [], frozen := none }
+  { s with phase := .crashed, w := .idle, job := none, recov := none, mem := [], frozen := none,
+           manifestFailed := false }
 
 /-- what `Job.pc = .done` leads to -/
 def finishJob (s : St) (j : Job) : St :=
@@ -664,7 +668,7 @@ def stepJob (cfg : Cfg) (s : St) (d : Disk) (j : Job) (rot : Bool) (o : Outcome)
     match j.edit with
     | none => none
     | some e =>
-      if rot ∨ ¬ s.manifestOpen then
+      if rot ∨ ¬ s.manifestOpen ∨ s.manifestFailed then
         -- `newManifest`: create the file
         let m := s.nextFile
         let d' := d.exec (.create .manifest m) o
@@ -676,7 +680,7 @@ def stepJob (cfg : Cfg) (s : St) (d : Disk) (j : Job) (rot : Bool) (o : Outcome)
         | some m =>
           -- `flushManifest`: `fillRecord(rec, false)`, write the record
           let d' := d.exec (.writeM m { e with nf := s.nextFile }) o
-          if o.failed then some (failTo s j .append, d')
+          if o.failed then some (failTo { s with manifestFailed := true } j .append, d')
           else some (goto (if cfg.editSyncedBeforeJournalRemoval then .sync else .earlyRm) s, d')
   | .earlyRm =>
     some (goto .sync s, j.rmJournals.foldl (fun d n => d.apply (.remove .journal n)) d)
@@ -699,19 +703,18 @@ def stepJob (cfg : Cfg) (s : St) (d : Disk) (j : Job) (rot : Bool) (o : Outcome)
       if o.failed then some (failTo s j .append, d'.apply (.remove .manifest m))
       else some (goto (if cfg.manifestSyncedBeforeSetMeta then .rotRemove m else .rotSync m) s, d')
   | .rotRemove m =>
-    -- `recordCommited`; close and remove the old manifest; adopt the new one
+    -- `recordCommited`; close and remove the old manifest (an error is only logged: the new manifest is in
+    -- effect, the repair of D27); adopt the new one
     let d' := match s.manifestFd with
       | some old => d.exec (.remove .manifest old) o
       | none => d
-    let s' := { s with manifestFd := some m, manifestOpen := true }
-    if o.failed then some (failTo s' j .append, d')        -- `commit` returns the `Remove` error: retried
-    else some (goto .install s', d')
+    some (goto .install { s with manifestFd := some m, manifestOpen := true, manifestFailed := false }, d')
   | .sync =>
     match s.manifestFd with
     | none => none
     | some m =>
       let d' := d.exec (.sync .manifest m) o
-      if o.failed then some (failTo s j .append, d')
+      if o.failed then some (failTo { s with manifestFailed := true } j .append, d')
       else some (goto .install s, d')
   | .install =>
     match j.edit with
@@ -794,8 +797,10 @@ def stepTr (s : St) : Act → Option St
       else none
     | none => none
   | .trDiscard =>
+    -- `Transaction.discard`: the sequence numbers the transaction used are not handed out again
     match s.tr with
-    | some _ => if s.job = none then some { s with tr := none } else none
+    | some g =>
+      if s.job = none then some { s with tr := none, seq := max s.seq (g.fin - 1), hi := max s.hi g.fin } else none
     | none => none
   | _ => none
 
@@ -900,23 +905,64 @@ def run (cfg : Cfg) : St × Disk → List Act → Option (St × Disk)
 
 def Reachable (cfg : Cfg) (sd : St × Disk) : Prop := ∃ as, run cfg init as = some sd
 
-/-- an action of the core sub-protocol (write groups, buffer rotation, memdb flush, manifest rotation, crash,
-    exit, recovery) without an injected storage fault -/
+/-- an action without an injected storage fault -/
 def Act.faultFree : Act → Bool
   | .wAppend _ _ o => o = .ok
   | .wSync o => o = .ok
   | .rotate o => o = .ok
   | .job _ o => o = .ok
-  | .compactStart _ | .trBegin | .trPut _ | .trCommit | .trDiscard => false
   | _ => true
 
-/-- any action without an injected storage fault -/
-def Act.noFault : Act → Bool
+/-- any action without an injected storage fault (the same predicate; kept under the name the statement
+    `C04.crash_consistent_full` was first made with) -/
+def Act.noFault (a : Act) : Bool := a.faultFree
+
+/-- **D10 excluded**: the append of a commit's record to the manifest does not fail after the record has
+    reached the file, and the manifest `Sync` does not fail ("a manifest record may reach the file although
+    `session.commit` reported failure") -/
+def Act.noD10 (s : St) : Act → Bool
+  | .job rot o =>
+    match s.job with
+    | some j =>
+      match j.pc with
+      | .append => rot || !s.manifestOpen || s.manifestFailed || o != .failEffect
+      | .sync => o == .ok
+      | _ => true
+    | none => true
+  | _ => true
+
+/-- **D26 excluded**: `SetMeta` does not fail after it took effect (`Dur.step` has no such step at all) -/
+def Act.noD26 (s : St) : Act → Bool
+  | .job _ o =>
+    match s.job with
+    | some j =>
+      match j.pc with
+      | .rotSetMeta _ => o != .failEffect
+      | _ => true
+    | none => true
+  | _ => true
+
+/-- no fault in the journal operations of the write path (those are the subject of `C08.fault_safe_partial`) -/
+def Act.writerFaultFree : Act → Bool
   | .wAppend _ _ o => o = .ok
   | .wSync o => o = .ok
   | .rotate o => o = .ok
-  | .job _ o => o = .ok
   | _ => true
+
+/-- the storage faults `C08.fault_safe_jobs` covers: every failure inside a flush, a table compaction, a
+    transaction commit or a recovery, except the two known findings -/
+def Act.jobFaultsOnly (s : St) (a : Act) : Bool := a.writerFaultFree && a.noD10 s && a.noD26 s
+
+/-- every action of the run satisfies `P` in the state it is taken in -/
+def allowed (cfg : Cfg) (P : St → Act → Bool) : St × Disk → List Act → Bool
+  | _, [] => true
+  | sd, a :: as =>
+    P sd.1 a &&
+    match step cfg sd.1 sd.2 a with
+    | some sd' => allowed cfg P sd' as
+    | none => true
+
+def Allowed (cfg : Cfg) (P : St → Act → Bool) (sd : St × Disk) (as : List Act) : Prop := allowed cfg P sd as = true
 
 def ReachableFF (cfg : Cfg) (sd : St × Disk) : Prop :=
   ∃ as, (∀ a ∈ as, a.faultFree) ∧ run cfg init as = some sd
